@@ -90,7 +90,7 @@ def _chunk(args):
 
 def search(ctx, deep):
     r = random.Random(ctx.seed * 67 + 2)
-    n = (100 if ctx.tier == "quick" else 1200) * (3 if deep else 1)
+    n = (200 if ctx.tier == "quick" else 1200) * (3 if deep else 1)
     texts = [tl.render_prog(c, random.Random(i)) for i, c in enumerate(past_cases(ctx.seed * 71 + 3, n))]
     # past formulas as observers and constraints, incl. the n-fold operator grid
     forms = [strip_final(f) for f in gen.pair_grid(["a", "b"]) if "next" not in str(f) and "evF" not in str(f) and "alF" not in str(f)
